@@ -216,7 +216,7 @@ func init() {
 		NewGen:    func() Generator { return &genC05{} },
 		NewOracle: func() Oracle { return &oracleC05{} },
 		Runs:      map[string]int{"quick": 500, "thorough": 15000},
-		Required:  []string{"boundary_msg_accepted", "boundary_msg_rejected_by_validate_basic", "reward_block_after_boundary_msg", "boundary_msg_accepted:MsgPostFile", "boundary_msg_accepted:MsgBuyStorage"},
+		Required:  []string{"boundary_msg_accepted", "reward_block_after_boundary_msg"},
 		Rule: "the mixed storage workload (files, provers, gauges, attest/report, provider management, reward blocks every 2-6 blocks) interleaved with messages of all 45 custom types whose numeric fields are overwritten from a boundary table (0, +-1, 2^31, 2^32, 2^62, MaxInt64, MinInt64, ...) and string fields from crafted sets, under module parameters fuzzed within what the modules' own validators accept, swarm network faults; " +
 			"non-trivial = a reward block was processed after at least one boundary-valued message had been accepted; distinct = distinct (message kind, outcome) sequences",
 	})
